@@ -50,7 +50,7 @@ func famPlan(depth int) SeqModel {
 func famFull(depth int) SeqModel {
 	return SeqModel{Name: "full", MaxTasks: 2, MaxEpics: 1, Depth: depth,
 		Agents: []string{"a1"}, CmdNames: []string{"new_task", "new_epic", "set", "claim_id", "claim", "sequence", "sequence_rm",
-			"prune", "prune_dry", "compact", "plan", "list_ready"},
+			"prune", "prune_dry", "compact", "plan", "list_ready", "reads"},
 		StateArgs: []string{"doing", "done", "error", "todo", "bogus"}, ClaimArgs: []string{"", "a1"},
 		Extras: []string{"set_epic", "badid", "badepic", "text", "results", "chains"}, PlanDocs: "DocsSmall", ViewMode: "graph"}
 }
@@ -114,7 +114,7 @@ func init() {
 	registry["C08"] = func() Check {
 		return &SeqCheck{Prop: "C08",
 			Ideal: famReady(3, 2, 5), IdealDeep: famReady(3, 2, 7), IdealProps: []string{"P_C08"}, IdealInvs: []string{"CodeReadyIsSpecReady"}, Probes: probeClaimOrder,
-			Proc: &ProcCheck{Prop: "C08", Scenarios: "ClaimScenarios", IdealInvs: []string{"Serializable"}, Only: []string{"C08_serial"}},
+			Proc: &ProcCheck{Prop: "C08", Scenarios: "ClaimScenarios", IdealInvs: []string{"Serializable"}, Only: []string{"C08_serial"}, MaxRunsQuick: 500},
 			GenQuick: famReady(2, 2, 4), GenThorough: famReady(3, 2, 6), SampleQuick: 120,
 			CraftQuick: famCraft(700, "claim", "list_ready"), CraftThorough: famCraft(40000, "claim", "list_ready"),
 			Sim: famReady(4, 2, 14), SimNumQuick: 60, SimNumThorough: 2000}
